@@ -48,10 +48,10 @@ type boundedSpec struct {
 
 var boundedSpecs = []boundedSpec{
 	{prop: "C15", name: "C15#bounded#batches-equal-find", harness: "c15_bounded_test.go.txt", pkgDir: "tests", run: "TestGvcBoundedC15$",
-		statement: "on the SQLite database of the test module, for every table size 0..bound, batch size 1..bound+1, limit and offset in {absent, -1, 0..bound+1}: FindInBatches delivers exactly the rows the same chain's Find returns in primary-key order, once each, in order, in batches no larger than requested, and reports their number in RowsAffected",
+		statement: "on the SQLite database of the test module, for every table size 0..bound, batch size 1..bound+1, limit and offset in {absent, -1, 0..bound+1} and four condition shapes (none, one Where, Where.Or, Where.Or.Where): FindInBatches delivers exactly the rows the same chain's Find returns in primary-key order, once each, in order, in batches no larger than requested, and reports their number in RowsAffected",
 		quick: "4", thorough: "6"},
 	{prop: "C17", name: "C17#bounded#registration-sequences", harness: "c17_bounded_test.go.txt", pkgDir: "", run: "TestGvcBoundedC17$",
-		statement: "for every sequence of Register / Before(x).Register / After(x).Register / Before(x).After(y).Register / Replace / Remove up to the bound over 4 built-in names, 2 new names and 1 unknown name: an error is returned, or every registered non-removed callback runs exactly once, on the requested side of the callback it names, built-ins keep their relative order, Replace keeps the position",
+		statement: "for every sequence of Register / Before(x).Register / After(x).Register / Before(x).After(y).Register / Replace / Remove up to the bound over 4 built-in names, 2 new names and 1 unknown name (also Before(\"*\") / After(\"*\"), a removed built-in registered again, and four fixed longer sequences with dormant constraints): an error is returned, or every registered non-removed callback runs exactly once, on the requested side of the callback it names, built-ins keep their relative order, Replace keeps the position, a callback placed relative to \"*\" runs before / after every unconstrained one (unless something was placed relative to it)",
 		quick: "2", thorough: "3"},
 	{prop: "C11", name: "C11#bounded#identity-key-injective", harness: "c11_bounded_test.go.txt", pkgDir: "utils", run: "TestGvcBoundedC11$",
 		statement: "for all tuples of arity 1..bound over key parts {\"\", a, b, _, a_b, b_, _a, nil(text), \\, a\\, \\_, 1, 2, 12, nil, uint 1, []byte a_, \"1\", \"1_2\"}: different tuples (parts compared by their text, nil apart) get different identity keys from the real ToStringKey",
